@@ -1,30 +1,14 @@
 (* Inst/Codec.v — the reflective codec checks evaluated on the generated programs (re-checked on
    every run), and the class-level theorems they yield. *)
 From VB Require Import Base IR Sem Tables BaseFacts StreamFacts EvalFacts Roundtrip ClassRT FreshFacts.
-From VB Require Import Classes Consts Common.
+From VB Require Import Classes Consts Common CodecDefs.
 Local Open Scope Z_scope.
-
-Definition Wp (c : Z) : prog := prog_of cs c M_write.
-Definition Rp (c : Z) : prog := prog_of cs c M_read.
-Definition pre_of (c : Z) : list (Z * expr) := fst (split_pre (Wp c)).
-Definition emit_of (c : Z) : prog := snd (split_pre (Wp c)).
 
 Lemma sig_ok : 0 <= sp_sig scan_p < 2 ^ 32.
 Proof. vm_compute. split; [discriminate|reflexivity]. Qed.
 
 Lemma scan_recognised_ok : scan_recognised = true.
 Proof. reflexivity. Qed.
-
-(* ---- round trip ---- *)
-Definition rt_ok (c : Z) : bool :=
-  class_rt_ok cs scan_p (Wp c) (Rp c) && fresh_wf_b cs c && defined_b (wfields (emit_of c)) (fresh cs c).
-
-(* classes outside the generic round-trip theorem (by name; see DESIGN.md for each) *)
-Definition rt_exception_names : list string :=
-  ["CanErrorFrameExt"; "CanFdErrorFrame64"; "CanFdMessage64"; "CanMessage2"; "CanSettingChanged";
-   "EthernetStatus"; "FlexRayVFrReceiveMsgEx"; "GlobalMarker"; "LinMessage"; "LinMessage2";
-   "LinSendError2"; "LogContainer"; "RestorePointContainer"; "SerialEvent"; "AttributeEvent"]%string.
-Definition rt_exceptions : list Z := map class_of_name rt_exception_names.
 
 Lemma rt_all_b : forallb rt_ok (minus object_classes rt_exceptions) = true.
 Proof. vm_compute. reflexivity. Qed.
